@@ -20,7 +20,7 @@ func init() {
 				Harness{Fn: "ZZC03Lexer", Quick: p("N", 2), Thorough: p("N", 3), ThoroughBudget: 10 * time.Minute, Expect: []string{"eof", "illegal", "ident", "string", "witness:end"}},
 			),
 			parserUnit([]string{"parser/c03p.go"},
-				Harness{Fn: "ZZC03Parser", Quick: p("E", 1), Thorough: p("E", 2), ThoroughBudget: 20 * time.Minute, Expect: []string{"accepted", "rejected", "witness:end"}},
+				Harness{Fn: "ZZC03Parser", Quick: p("E", 1, "INS", 26), Thorough: p("E", 2, "INS", 41), ThoroughBudget: 20 * time.Minute, Expect: []string{"accepted", "rejected", "witness:end"}},
 			),
 		},
 		Assumptions: []string{
